@@ -491,6 +491,27 @@ def cli_patterns(ctx):
                           {"kind": "oracle", "oracle": "CLI: `:x` in alias.actual resolves against the current package", "alias": "//%s:al" % pk,
                            "deps_printed": got, "expected": ["//%s:lib" % pk]}, signature="relative-dependency-wrong-package")
             break
+    # a relative pattern resolves against the current package also when the workspace is entered through a symlink ($PWD names the link)
+    link = os.path.join(base, "wslink")
+    if not os.path.islink(link):
+        os.symlink(ws, link)
+    nl = 0
+    for pk in ["a", "a/b", "x/y"]:
+        via = os.path.join(link, pk)
+        try:
+            p = subprocess.run([grog, "list", ":all"], cwd=via, env=dict(env, PWD=via), capture_output=True, text=True, timeout=60)
+        except subprocess.TimeoutExpired:
+            continue
+        nl += 1
+        got = sorted(l for l in p.stdout.split("\n") if l.startswith("//"))
+        exp = sorted("//%s:%s" % (p_, n_) for p_, n_ in universe if p_ == pk)
+        if p.returncode == 0 and got != exp:
+            fails += 1
+            ctx.violation("a relative pattern does not resolve against the current package when the workspace is entered through a symlink",
+                          {"kind": "oracle", "oracle": "CLI: `:all` from <symlink to workspace>/<package> lists that package", "current_directory": via,
+                           "symlink": link + " -> " + ws, "printed": got, "expected": exp}, signature="relative-pattern-wrong-package:symlinked-workspace")
+            break
+    ctx.coverage["oracle_cli_symlinked_cwd"] = nl
     ctx.coverage["oracle_cli_pattern_sets"] = n
     ctx.coverage["oracle_cli_relative_deps"] = nd
     return fails
